@@ -122,7 +122,7 @@ def run_group(g, workroot, extra_defines=(), want_trace=False, only_property=Non
         checks = list(BASE_CHECKS if g.checks is None else g.checks)
         # DFCC allocates tables of 2^object_bits entries: memory grows steeply with --object-bits, so start
         # small and escalate only when cbmc reports "too many addressed objects"
-        ob = g.object_bits or 8
+        ob = g.object_bits or 9
         outp = os.path.join(wd, "out.json")
         while True:
             cb = ["cbmc", b] + checks + list(g.flags)
@@ -137,8 +137,7 @@ def run_group(g, workroot, extra_defines=(), want_trace=False, only_property=Non
                 cb += ["--z3"]
             elif g.backend not in ("sat", None):
                 cb += ["--sat-solver", g.backend]
-            if want_trace:
-                cb += ["--trace"]
+            cb += ["--trace"]   # traces are only produced for failed properties; no second run needed for the replay file
             if only_property:
                 cb += ["--property", only_property]
             cb += ["--json-ui"]
@@ -178,7 +177,7 @@ def run_group(g, workroot, extra_defines=(), want_trace=False, only_property=Non
         for r in results:
             d = dict(id=r.get("property"), desc=r.get("description", ""), status=r.get("status"),
                      loc=_loc(r.get("sourceLocation")))
-            if want_trace and r.get("status") == "FAILURE" and "trace" in r:
+            if r.get("status") == "FAILURE" and "trace" in r and not d["desc"].startswith("REACH"):
                 d["trace"] = r["trace"]
             if d["desc"].startswith("REACH"):
                 reach.append(d)
